@@ -103,7 +103,7 @@ fn probe_for(tiles: &TileMap) -> Vec<Key> {
 pub fn run(ctx: Arc<Ctx>) {
 	ctx.rule(
 		"tile sets: BFS states (depth <= 2) + all non-empty subsets of a 5x2 (quick) / 5x3 (thorough) grid at z=3 and a 3x3 (quick) / 4x3 (thorough) grid at z=4 rows 9..11 (where file names change digit count) + single tiles at level 0 / level 31 corner + zoom gaps; \
-		 x 5 container formats written by the repository's writers; pipelines over 2-3 sources with different pyramids. oracle: every tile returned by lookups over a probe superset lies in the advertised pyramid; for mbtiles/pmtiles/tar/directory each level box = bounding box. \
+		 x 5 container formats written by the repository's writers; PMTiles archives with run-length entries and shared byte ranges from the independent encoder (every run of ids 1..84, every placement of two equal tiles + another at z=2); pipelines over 2-3 sources with different pyramids. oracle: every tile returned by lookups over a probe superset lies in the advertised pyramid; for mbtiles/pmtiles/tar/directory each level box = bounding box. \
 		 non-trivial = distinct (format, tile set) whose tiles are not a full rectangle",
 	);
 	let work = ct::WorkDir::new("c03");
@@ -171,6 +171,30 @@ pub fn run(ctx: Arc<Ctx>) {
 			ct::cleanup(&w);
 		}
 	});
+	// PMTiles archives as other writers produce them (run-length entries, shared byte ranges): independent encoder
+	{
+		let special = super::c16::pm_special_sets(tier);
+		let sl = super::c16::pm_special_layouts();
+		let (specr, slr) = (&special, &sl);
+		par_for(special.len(), |i| {
+			let (name, tiles) = &specr[i];
+			let rt = tokio::runtime::Builder::new_current_thread().build().unwrap();
+			let probe = probe_for(tiles);
+			for l in slr.iter() {
+				let bytes = crate::codec::pm_encode(tiles, 2, 1, b"{}", *l);
+				let case = json!({"cont": "pmtiles", "layout": l, "set": name});
+				match ct::open(&rt, Cont::Pmtiles, &ct::Written::Bytes(bytes)) {
+					Ok(r) => {
+						ctxr.trace(1);
+						check_pyramid(ctxr, &rt, "pmtiles reader (archive of another writer)", &format!("pmtiles {l:?} over '{name}'"), &AnySrc::Reader(r), &probe, true, case);
+						ctxr.nontrivial(fnv_str(&format!("pmS{l:?}{name}")));
+					}
+					Err(e) => ctxr.outcome(&format!("pmtiles: reader rejects an archive of another writer (C16's subject): {}", super::c01::norm_msg(&e))),
+				}
+			}
+		});
+		ctx.extra("pmtiles_archives_of_other_writers", json!({"sets": special.len(), "layouts": sl.len()}));
+	}
 	ctx.sample(json!({"tile_set": sets[n_bfs + 37].0, "tiles": sets[n_bfs + 37].1.keys().collect::<Vec<_>>()}));
 	ctx.outcome_n("tile sets x 5 formats", sets.len() as u64);
 	// pipelines
